@@ -594,7 +594,7 @@ pub fn partition_ops() -> Vec<Op> {
 pub fn partition_suites(thorough: bool) -> Vec<Suite> {
     let d = |q: usize, t: usize| if thorough { t } else { q };
     let mut v = Vec::new();
-    for blocks in [5u64, 7] {
+    for blocks in [4u64, 5, 7] {
         v.push(crash_suite(&format!("part-small{blocks}-v3"), small_disk(3, blocks), std_tables(), partition_ops(), d(6, 8)));
     }
     for format in [1, 2, 3] {
